@@ -108,6 +108,7 @@ fn main() {
                 "seq-vs-par-c05" => replay_text(&checks::c08::SeqVsPar { prop: "C05", name: "seq-vs-par-c05", mix: false }, &text),
                 "seq-vs-par-c06" => replay_text(&checks::c08::SeqVsPar { prop: "C06", name: "seq-vs-par-c06", mix: false }, &text),
                 "seq-vs-par-c16" => replay_text(&checks::c08::SeqVsPar { prop: "C16", name: "seq-vs-par-c16", mix: false }, &text),
+                "seq-vs-par-c18" => replay_text(&checks::c08::SeqVsPar { prop: "C18", name: "seq-vs-par-c18", mix: false }, &text),
                 "seq-vs-par-mix-c05" => replay_text(&checks::c08::SeqVsPar { prop: "C05", name: "seq-vs-par-mix-c05", mix: true }, &text),
                 "seq-vs-par-mix-c06" => replay_text(&checks::c08::SeqVsPar { prop: "C06", name: "seq-vs-par-mix-c06", mix: true }, &text),
                 "generators" => replay_text(&checks::c08::Generators, &text),
